@@ -1010,26 +1010,18 @@ def to_native_inplace(array):
     Convert to native byte ordering in place
     """
 
-    if numpy.little_endian:
-        machine_little = True
-    else:
-        machine_little = False
-
-    data_little = False
     if array.dtype.names is None:
-        data_little = is_little_endian(array.dtype)
+        if not array.dtype.base.isnative:
+            array.byteswap(True)
+            array.dtype = array.dtype.newbyteorder()
     else:
-        # assume all are same byte order: we only need to find one with
-        # little endian
+        # the fields can differ in byte order: swap each non-native field on
+        # its own, then declare them all native
         for fname in array.dtype.names:
-            if is_little_endian(array[fname].dtype):
-                data_little = True
-                break
-
-    if (machine_little and not data_little) or (not machine_little and data_little):  # noqa
-
-        outdata = array.byteswap(True)
-        outdata.dtype = outdata.dtype.newbyteorder()
+            field = array[fname]
+            if not field.dtype.isnative:
+                field.byteswap(True)
+        array.dtype = array.dtype.newbyteorder("=")
 
 
 def is_little_endian(dtype):
